@@ -202,9 +202,14 @@ def cases(ctx):
     for n_, d_, p_ in HAND:
         if n_ in ("lengths", "patterns", "strenums", "deny-lists"):
             out.append(("hand:%s+conv" % n_, d_, p_)); SETTINGS_FOR["hand:%s+conv" % n_] = CONV_SETTINGS
+    import corpus
+    for cid, cdoc, _ in corpus.oracle_documents():
+        if cid.startswith(("hand:", "file:")): out.append(("corpus:" + cid, cdoc, {}))
     for k in range(30 if thorough else 3):
         out.append(("genallof:%d" % k, gen.gen_universe(ctx.rng, 3 + k % 4, gen.FEATURE_SETS["c05"] | {"allof", "allof_closed"}), {}))
-    n = 400 if thorough else 44 - len(out)
+    for k in range(40 if thorough else 4):
+        out.append(("genunion:%d" % k, gen.gen_universe(ctx.rng, 2 + k % 4, gen.FEATURE_SETS["c05"] | {"enum_untagged", "objunion"}), {}))
+    n = 400 if thorough else 8
     for k in range(max(n, 8)):
         out.append(("gen:%d" % k, gen.gen_universe(ctx.rng, 2 + k % 6, gen.FEATURE_SETS["c05"]), {}))
     return out
@@ -579,7 +584,29 @@ def pred_const_ignored(rec, doc):
                 if e and e.get("kind") in ("string", "integer", "float", "boolean", "json_value"): return True
     return False
 
-PREDICATES = {"C05-bool-enum": pred_bool_enum, "C05-struct-seq-form": pred_struct_seq_form,
+def flatten_unions(dump):
+    """ids of the structs whose members are ALL flattened, defaulted Option<struct>: what flattened_union_struct builds"""
+    es = irutil.entries(dump); out = set()
+    for i, e in es.items():
+        if e["kind"] == "struct" and e["props"] and all(p.get("rename") == "flatten" and p["state"] == "optional" and
+                                                           es.get(p["type_id"], {}).get("kind") == "option" for p in e["props"]):
+            out.add(i)
+    return out
+
+def _lost_members(inp, out):
+    """some object of the document comes back without one of its members"""
+    if isinstance(inp, dict) and isinstance(out, dict):
+        return any(k not in out for k in inp) or any(_lost_members(v, out[k]) for k, v in inp.items() if k in out)
+    if isinstance(inp, list) and isinstance(out, list): return any(_lost_members(a, b) for a, b in zip(inp, out))
+    return False
+
+def pred_flatten_union(rec, doc):
+    fu = flatten_unions(rec.case.dump)
+    if not fu or not (irutil.reachable(rec.case.dump, rec.tid) & fu): return False
+    st, parts = m3.norm_real("de", rec.ans["de"])
+    return st == "ok" and bool(parts) and _lost_members(rec.value, json.loads(parts[0]))
+
+PREDICATES = {"C05-anyof-flatten-accepts-any": pred_flatten_union, "C05-bool-enum": pred_bool_enum, "C05-struct-seq-form": pred_struct_seq_form,
               "C05-adjacent-closed-wrapper": pred_adjacent_closed_wrapper, "C05-buffered-tag-index": pred_buffered_tag_index,
               "C05-const-ignored": pred_const_ignored, "C05-unit-variant-map-form": pred_unit_variant_map_form,
               "C05-variant-shared-inline-type": pred_variant_shared_type}
@@ -839,6 +866,7 @@ def run(ctx):
         sch = docs[c.tag] if key == "#" else (docs[c.tag].get("definitions") or docs[c.tag].get("$defs") or {}).get(key, {})
         if '"const"' in json.dumps({k: v for k, v in sch.items() if k != "definitions"} if isinstance(sch, dict) else sch) \
                 and "C05-const-ignored" in findings: return "C05-const-ignored"
+        if (seen & flatten_unions(c.dump)) and "C05-anyof-flatten-accepts-any" in findings: return "C05-anyof-flatten-accepts-any"
         pairs = shared_variant_types(c.dump)
         for i in seen:
             e = es[i]
